@@ -249,6 +249,65 @@ var deviations = []deviation{
 		a.w.Bus.Inject(&wire.Envelope{Sender: ghost, Recipient: a.V.Wire, Msg: &client.ChannelSyncMsg{Phase: channel.Acting, CurrentTX: channel.Transaction{State: st, Sigs: sigs}}})
 		return waitUntil(5*time.Second, func() bool { return atomic.LoadInt64(&blocked) > 0 })
 	}},
+	{name: "opening/sub-channel-signature-withheld-but-funding-update-sent", run: func(rng *rand.Rand, a *arena) bool {
+		// M proposes a sub-channel, V accepts; M withholds its signature on the version-0 state (V's
+		// opening fails) but sends the funding update of the parent channel all the same.
+		var mu sync.Mutex
+		dropped := 0
+		a.w.Bus.SetRewriter(a.M.Wire, func(e *wire.Envelope) []*wire.Envelope {
+			if m, ok := e.Msg.(*client.ChannelUpdateAccMsg); ok && m.Version == 0 && m.ChannelID != a.chM.ID() {
+				mu.Lock()
+				dropped++
+				mu.Unlock()
+				return nil
+			}
+			return []*wire.Envelope{e}
+		})
+		a.V.SetTimeout(1500 * time.Millisecond)
+		a.M.SetTimeout(4 * time.Second)
+		_, _ = a.M.OpenSubChannel(a.chM, bals(len(a.w.Assets), 2, 2), 10)
+		a.w.Bus.SetRewriter(a.M.Wire, nil)
+		a.V.SetTimeout(20 * time.Second)
+		a.M.SetTimeout(20 * time.Second)
+		mu.Lock()
+		defer mu.Unlock()
+		return dropped > 0
+	}},
+	{name: "hub-virtual/stray-update-response-for-the-virtual-channel-then-its-settlement", virt: true, run: func(rng *rand.Rand, a *arena) bool {
+		// Somebody sends the hub an update response naming the virtual channel it routes (nobody
+		// asked for one); later the two participants settle the virtual channel honestly.
+		virtH := a.H.Channel(a.virtM.ID())
+		if virtH == nil {
+			return false
+		}
+		from := a.M
+		if rng.Intn(2) == 0 {
+			from = a.S
+		}
+		var msg wire.Msg = &client.ChannelUpdateAccMsg{ChannelID: a.virtM.ID(), Version: uint64(rng.Intn(3)), Sig: gen.FakeSig(rng)}
+		if rng.Intn(2) == 0 {
+			msg = &client.ChannelUpdateRejMsg{ChannelID: a.virtM.ID(), Version: uint64(rng.Intn(3)), Reason: "no"}
+		}
+		a.w.Bus.Inject(&wire.Envelope{Sender: from.Wire, Recipient: a.V.Wire, Msg: msg})
+		waitUntil(2*time.Second, func() bool { return a.w.Bus.Drained() })
+		if err := a.H.Pay(virtH, 0, 0, true); err != nil {
+			return false
+		}
+		a.M.SetTimeout(25 * time.Second)
+		a.H.SetTimeout(25 * time.Second)
+		errs := make(chan error, 2)
+		go func() { ctx, c := a.M.Ctx(); defer c(); errs <- a.virtM.Settle(ctx, false) }()
+		go func() { ctx, c := a.H.Ctx(); defer c(); errs <- virtH.Settle(ctx, false) }()
+		for i := 0; i < 2; i++ {
+			select {
+			case <-errs:
+			case <-time.After(30 * time.Second):
+			}
+		}
+		a.M.SetTimeout(20 * time.Second)
+		a.H.SetTimeout(20 * time.Second)
+		return true
+	}},
 	{name: "opening/version-0-signature-replaced", run: func(rng *rand.Rand, a *arena) bool {
 		// M answers the version-0 signature exchange of a new channel with something else
 		variant := rng.Intn(5)
@@ -389,7 +448,15 @@ func deviationCase(s sink.Sink, em *childrun.Emitter, rng *rand.Rand, idx int, s
 	if ok, why := probe(a, a.chV, a.M, patience, false); !ok {
 		abandon = true
 		if okCtl, _ := probe(a, a.ctlV, a.H, 15*time.Second, false); !okCtl {
-			s.Inconclusive("attacked and control channel both unresponsive (overloaded machine?)")
+			// both channels of the victim are stuck. If the victim still opens a fresh channel with a
+			// stranger in the meantime, the machine is not overloaded: the deviation locked both
+			// (they are the two parents of the virtual channel the hub routes).
+			a.S.SetTimeout(20 * time.Second)
+			if _, err := a.S.OpenLedgerChannel(a.V, bals(len(a.w.Assets), 3, 3), 10); err != nil {
+				s.Inconclusive("attacked and control channel both unresponsive (overloaded machine?)")
+				return
+			}
+			s.Violation("C12/locked-both/"+d.name, fmt.Sprintf("after the protocol deviation both the attacked channel and the control channel of the victim are unusable for more than %v while the victim still opens a new channel with a stranger: %s", patience, why), cd)
 			return
 		}
 		s.Violation("C12/locked/"+d.name, fmt.Sprintf("after the protocol deviation the attacked channel is unusable for more than %v while the control channel works: %s", patience, why), cd)
